@@ -241,6 +241,13 @@ def capa_objective(det_name, params, X, events, det):
     return total
 
 
+def _objective_tie(sorted_savings_increasing, tol):
+    """Conservative tie test: two different prefix sums of the decreasingly sorted savings are within tol
+    of each other for some constant per-rank penalty - approximated by near-equal savings or near-zero ones."""
+    sv = np.asarray(sorted_savings_increasing)[::-1]
+    return bool(np.any(np.abs(sv) <= tol))
+
+
 def table_margin_ok(det_name, params, X, det, delta):
     """Decision margin of a threshold detector's run on X (see ASSUMPTIONS)."""
     thr = float(det.threshold_)
@@ -360,12 +367,23 @@ def check_detector(case):
                 # margin rule on the savings of the affected anomaly
                 from skchange.anomaly_scores import to_saving
                 cs = to_saving(K.build(params["collective_saving"] or {"cls": "L2Saving"})).fit(X)
+                ps = to_saving(K.build(params["point_saving"] or {"cls": "L2Saving"})).fit(X)
                 for (a, b), u, v in zip(e1, c1, c2):
                     if u != v:
-                        sv = np.sort(np.asarray(cs.evaluate(np.array([[a, b]])))[0]) if b - a > 1 else None
-                        if sv is not None and (len(sv) < 2 or np.min(np.diff(sv)) > 1e-6 * (1 + np.abs(sv).max())) and sorted(u) != sorted(v):
+                        scorer = cs if b - a > 1 else ps
+                        sv = np.sort(np.asarray(scorer.evaluate(np.array([[a, b]])))[0])
+                        gaps_ok = len(sv) < 2 or np.min(np.diff(sv)) > 1e-6 * (1 + np.abs(sv).max())
+                        if gaps_ok and sorted(u) != sorted(v) and len(u) == len(v):
                             raise Violation("MVCAPA's affected columns are not permuted with the columns",
                                             anomaly=[a, b], original=u, mapped_back=v, perm=perm)
+                        if gaps_ok and len(u) != len(v):
+                            # the number of affected columns is decided by the sorted savings only, which a
+                            # permutation does not change; only an exact tie of the penalised objective could
+                            tol = 1e-6 * (1 + np.abs(sv).max())
+                            raise_if = abs(len(u) - len(v)) >= 1 and not _objective_tie(sv, tol)
+                            if raise_if:
+                                raise Violation("the number of MVCAPA's affected columns changes under column permutation",
+                                                anomaly=[a, b], original=u, mapped_back=v, perm=perm)
                 classes.append("icolumns_tie_order")
         return {"nontrivial": nontrivial, "classes": classes}
     # threshold detectors
